@@ -272,3 +272,63 @@ func faithful(recs []*recording) error {
 	}
 	return nil
 }
+
+// genuineLarge runs the real client against the real server with the large
+// messages of every A2-large body and checks that the request and response
+// bodies on the wire are byte-identical to the synthesised ones, so that the
+// A2-large alphabet consists of genuine bodies.
+func genuineLarge(tier string) error {
+	for _, sizes := range largeSizes(tier) {
+		spec := &synthSpec{Sizes: sizes, Cut: -1}
+		srv := httpgrpc.NewServer()
+		svc := &common.Svc{Name: "t.S", Streams: map[string]common.StreamDef{"bidi": {ClientStreams: true, ServerStreams: true, Fn: func(ss grpc.ServerStream) error {
+			n := 0
+			for {
+				var in wrapperspb.StringValue
+				if err := ss.RecvMsg(&in); err != nil {
+					break
+				}
+				n++
+			}
+			if n != len(sizes) {
+				return status.Errorf(codes.Internal, "got %d requests", n)
+			}
+			for i, z := range sizes {
+				if err := ss.SendMsg(wrapperspb.String(largeString(i, z))); err != nil {
+					return err
+				}
+			}
+			return nil
+		}}}}
+		srv.RegisterService(svc.Desc(), common.Impl{})
+		var cp capture
+		ch := &httpgrpc.Channel{Transport: recordingRT(srv, &cp), BaseURL: baseURL}
+		ctx, cancel := context.WithCancel(context.Background())
+		st, err := ch.NewStream(ctx, &grpc.StreamDesc{StreamName: "bidi", ClientStreams: true, ServerStreams: true}, "/t.S/bidi")
+		if err != nil {
+			cancel()
+			return err
+		}
+		for i, z := range sizes {
+			if err := st.SendMsg(wrapperspb.String(largeString(i, z))); err != nil {
+				cancel()
+				return fmt.Errorf("large %v: SendMsg: %v", sizes, err)
+			}
+		}
+		st.CloseSend()
+		for {
+			var m wrapperspb.StringValue
+			if err := st.RecvMsg(&m); err != nil {
+				break
+			}
+		}
+		cancel()
+		if !bytes.Equal(cp.resp, spec.full("client")) {
+			return fmt.Errorf("large %v: the genuine response body (%d bytes) differs from the synthesised one (%d bytes)", sizes, len(cp.resp), len(spec.full("client")))
+		}
+		if !bytes.Equal(cp.req, spec.full("server")) {
+			return fmt.Errorf("large %v: the genuine request body (%d bytes) differs from the synthesised one (%d bytes)", sizes, len(cp.req), len(spec.full("server")))
+		}
+	}
+	return nil
+}
